@@ -75,7 +75,8 @@ def attachStack {α} (d : α) (h : Head) : List (Frame α) → Option (Tree α) 
     let f := f.absorb carry
     if allowedIn f.h.kind h.kind then
       if isHTTPMethod h.kind && h.hasPath && f.h.kind == .URL then
-        if f.h.explicit then .error .incorrectContextPath
+        -- HasUnclosedExplicitContext: the URL or any of its ancestors
+        if f.h.explicit || rest.any (·.h.explicit) then .error .incorrectContextPath
         else
           -- a new root: the Go code leaves d.Parent = nil, i.e. every open frame is abandoned
           .ok ⟨[⟨d, h, []⟩], closeAll (f :: rest) none roots⟩
